@@ -248,6 +248,29 @@ def rule_m6(chk: Check, ir, rule_id: str = "M6-macro-callee"):
                 f"`get()!(...)` or `(f)!(...)` are refused although the same callee can be called")
 
 
+def rule_m7(chk: Check, ir, rule_id: str = "M7-with-macro-head"):
+    """Sibling agreement: whatever can head a `with` statement can head a `with!` — the item of the with-macro start is the same
+    grammar rule as the item of the plain (unparenthesised) `with` alternative."""
+    from ..ir import Cut, Gather, Lit, Ref
+    plain = None
+    macro = None
+    for name, r in ir.rules.items():
+        for a in r.alts:
+            its = [ni.item for ni in a.items if not isinstance(ni.item, Cut)]
+            if len(its) >= 3 and isinstance(its[0], Lit) and its[0].value.strip("'\"") == "with":
+                if isinstance(its[1], Lit) and its[1].value.strip("'\"") == "!":
+                    nxt = its[2]
+                    macro = (name, nxt.name if isinstance(nxt, Ref) else str(nxt), a)
+                elif isinstance(its[1], Gather) and isinstance(its[1].item, Ref):
+                    plain = its[1].item.name
+    chk.count(rule_id)
+    if plain is None or macro is None:
+        raise AnalysisError("M7: the plain `with` alternative or the with-macro start was not found")
+    chk.require(macro[1] == plain, rule_id, macro[0], str(macro[2].pos),
+                f"a plain `with` takes a `{plain}` but `with!` takes a `{macro[1]}`: headers such as `with! (ctx) as c:` or "
+                f"`with! (a or b).lock:` that are fine without the `!` are refused with it")
+
+
 def rule_m2(chk: Check, ix: Index):
     f = ix.get("Tokenizer.__init__")
     table = None
@@ -431,6 +454,7 @@ def run(chk: Check):
     rule_m1(chk, ix)
     rule_m2(chk, ix)
     rule_m6(chk, ir)
+    rule_m7(chk, ir)
     macros.rule_m3(chk, ix, ir)
     rule_m4(chk, ix, tr.interp)
     macros.rule_m5(chk, ix)
